@@ -141,6 +141,72 @@ theorem split_bank_branch (X : Ctx) (e : Country) (vs : List (Component × Str))
   · rw [h1, List.length_take]; omega
   · rw [h2, slice_length (by omega)]; omega
 
+/-- **`IBAN.from_bban` on a compact BBAN, success case**: the returned text is
+    `cc ++ dd ++ b` with two check digits, it is accepted by the validating constructor, and `b` has
+    the country's BBAN length. -/
+theorem fromBban_ok (X : Ctx) (hU : X.U.WF) (hT : X.T.WF) {cc b i : Str} {e : Country}
+    (hl : X.T.lookup cc = some e) (hbc : Compact X.U b)
+    (h : IBAN.fromBban X cc b false false = .ok i) :
+    b.length = e.bbanLength ∧ i.take 2 = cc ∧ i.drop 4 = b ∧ isoValid X.T i = true ∧
+      IBAN.new X i false false = .ok i := by
+  have ⟨heT, hcode⟩ := Table.lookup_mem hl
+  have hW := hT e heT
+  unfold IBAN.fromBban at h
+  cases hd : isoDefaultCompute X.U [b, cc] with
+  | err _ => rw [hd] at h; cases h
+  | crash _ => rw [hd] at h; cases h
+  | ok dd =>
+    rw [hd] at h
+    simp only [Res.ok_bind] at h
+    have hddA : allAlnum dd = true := NatAlgo.compute_alnum X.U .isoDefault [b, cc] hd
+    obtain ⟨a1, a2, hcd, ha1, ha2⟩ := hW.code
+    rw [hcd] at hcode
+    have hccA : allAlnum cc = true := by
+      rw [← hcode]; simp [allAlnum, isAsciiAlnumUpper, ha1, ha2]
+    have hcomp : Compact X.U (cc ++ dd ++ b) :=
+      compact_append (compact_append (compact_of_allAlnum hU hccA) (compact_of_allAlnum hU hddA)) hbc
+    have hclean : clean X.U (cc ++ dd ++ b) = cc ++ dd ++ b := clean_of_compact hcomp
+    have hok : (IBAN.new X (cc ++ dd ++ b) false false).isOk = true := by rw [h]; rfl
+    have hiso := (C01.accept_iff X hU hT _).mp hok
+    rw [hclean] at hiso
+    have hi : i = cc ++ dd ++ b := by
+      unfold IBAN.new at h
+      simp only [Bool.false_eq_true, ↓reduceIte, hclean] at h
+      cases hv : IBAN.validate X (cc ++ dd ++ b) false with
+      | ok _ => rw [hv] at h; simp only [Res.ok_bind, pure, Res.ok.injEq] at h; exact h.symm
+      | err _ => rw [hv] at h; cases h
+      | crash _ => rw [hv] at h; cases h
+    have hddl : dd.length = 2 := by
+      simp only [isoDefaultCompute, isoPre, bind, Res.bind] at hd
+      cases hn : numerify X.U (joinStrs [b, cc]) with
+      | ok n =>
+        simp only [hn, pure, Res.ok.injEq] at hd
+        obtain ⟨x, y, he, _⟩ := fmt02_digits (v := 98 - n * 100 % 97) (by omega)
+        rw [← hd]; simp only [iso7064]; rw [he]; rfl
+      | err _ => simp [hn] at hd
+      | crash _ => simp [hn] at hd
+    have hccl : cc.length = 2 := by rw [← hcode]; rfl
+    have htake : (cc ++ dd ++ b).take 2 = cc := by
+      rw [List.append_assoc, List.take_append_of_le_length (by omega), List.take_of_length_le (by omega)]
+    have hdrop : (cc ++ dd ++ b).drop 4 = b := by
+      have : (cc ++ dd).length = 4 := by rw [List.length_append]; omega
+      rw [List.drop_append_of_le_length (by omega), List.drop_of_length_le (by omega), List.nil_append]
+    have hblen : b.length = e.bbanLength := by
+      unfold isoValid at hiso
+      rw [htake, hl] at hiso
+      simp only [Bool.and_eq_true, beq_iff_eq, decide_eq_true_eq] at hiso
+      have := hiso.1.1.1.1.1.1
+      simp only [List.length_append] at this
+      omega
+    refine ⟨hblen, ?_, ?_, ?_, ?_⟩
+    · rw [hi]; exact htake
+    · rw [hi]; exact hdrop
+    · rw [hi]; exact hiso
+    · rw [hi] at h ⊢
+      unfold IBAN.new at h ⊢
+      simp only [Bool.false_eq_true, ↓reduceIte, hclean] at h ⊢
+      exact h
+
 /-- **`IBAN.generate`, success case.**  The returned text is `cc ++ dd ++ b` with `dd` two ASCII
     digits and `b` the assembled BBAN of the country's length; it is accepted by the validating
     constructor; and each of bank, branch and account code — as `splitComps` describes them:
@@ -159,98 +225,42 @@ theorem generate_ok (X : Ctx) (hU : X.U.WF) (hT : X.T.WF) {cc : Str} (hA : defau
   | crash _ => rw [hb] at h; cases h
   | ok b =>
     rw [hb] at h
-    simp only [Res.ok_bind, IBAN.fromBban] at h
+    simp only [Res.ok_bind] at h
     obtain ⟨e, cs, hl, hps, hb1, hb2, hb3, hcs, hbeq⟩ := fromComponents_ok X hb
-    have ⟨heT, hcode⟩ := Table.lookup_mem hl
-    have hW := hT e heT
-    cases hd : isoDefaultCompute X.U [b, cc] with
-    | err _ => rw [hd] at h; cases h
-    | crash _ => rw [hd] at h; cases h
-    | ok dd =>
-      rw [hd] at h
-      simp only [Res.ok_bind] at h
-      -- the three parts are compact, so the constructor's cleaning leaves the text alone
-      have hbc : Compact X.U b := by rw [hbeq]; exact compact_clean hU _
-      have hddA : allAlnum dd = true := NatAlgo.compute_alnum X.U .isoDefault [b, cc] hd
-      obtain ⟨a1, a2, hcd, ha1, ha2⟩ := hW.code
-      rw [hcd] at hcode
-      have hccA : allAlnum cc = true := by
-        rw [← hcode]; simp [allAlnum, isAsciiAlnumUpper, ha1, ha2]
-      have hcomp : Compact X.U (cc ++ dd ++ b) :=
-        compact_append (compact_append (compact_of_allAlnum hU hccA) (compact_of_allAlnum hU hddA)) hbc
-      have hclean : clean X.U (cc ++ dd ++ b) = cc ++ dd ++ b := clean_of_compact hcomp
-      have hok : (IBAN.new X (cc ++ dd ++ b) false false).isOk = true := by rw [h]; rfl
-      have hiso := (C01.accept_iff X hU hT _).mp hok
-      rw [hclean] at hiso
-      have hi : i = cc ++ dd ++ b := by
-        unfold IBAN.new at h
-        simp only [Bool.false_eq_true, ↓reduceIte, hclean] at h
-        cases hv : IBAN.validate X (cc ++ dd ++ b) false with
-        | ok _ => rw [hv] at h; simp only [Res.ok_bind, pure, Res.ok.injEq] at h; exact h.symm
-        | err _ => rw [hv] at h; cases h
-        | crash _ => rw [hv] at h; cases h
-      -- the check digits are two characters
-      have hddl : dd.length = 2 := by
-        simp only [isoDefaultCompute, isoPre, bind, Res.bind] at hd
-        cases hn : numerify X.U (joinStrs [b, cc]) with
-        | ok n =>
-          simp only [hn, pure, Res.ok.injEq] at hd
-          obtain ⟨x, y, he, _⟩ := fmt02_digits (v := 98 - n * 100 % 97) (by omega)
-          rw [← hd]; simp only [iso7064]; rw [he]; rfl
-        | err _ => simp [hn] at hd
-        | crash _ => simp [hn] at hd
-      have hccl : cc.length = 2 := by rw [← hcode]; rfl
-      have htake : (cc ++ dd ++ b).take 2 = cc := by
-        rw [List.append_assoc, List.take_append_of_le_length (by omega), List.take_of_length_le (by omega)]
-      have hdrop : (cc ++ dd ++ b).drop 4 = b := by
-        have : (cc ++ dd).length = 4 := by rw [List.length_append]; omega
-        rw [List.drop_append_of_le_length (by omega), List.drop_of_length_le (by omega), List.nil_append]
-      -- acceptance gives the length of the BBAN
-      have hblen : b.length = e.bbanLength := by
-        unfold isoValid at hiso
-        rw [htake, hl] at hiso
-        simp only [Bool.and_eq_true, beq_iff_eq, decide_eq_true_eq] at hiso
-        have := hiso.1.1.1.1.1.1
-        simp only [List.length_append] at this
-        omega
-      have hcsC := computeNational_compact X hU hA _ hcs
-      -- no component is longer than its field
-      have hfit : ∀ k r, publishedAt e k r → k ≠ .nationalChecksumDigits →
-          (splitComps X e (genArgs bank account branch) k).length ≤ r.stop - r.start := by
-        intro k r hp hk
-        have hr := range_of_published hp
-        have hwid : (e.range k).length = r.stop - r.start := by rw [hr]; rfl
-        rw [← hwid]
-        have hsp : ∀ k, k ≠ Component.bankCode → k ≠ Component.branchCode →
-            splitComps X e (genArgs bank account branch) k = padComps X e (genArgs bank account branch) k := by
-          intro k h1 h2
-          unfold splitComps
-          split
-          · show (if k = Component.bankCode then _ else if k = Component.branchCode then _ else _) = _
-            rw [if_neg h1, if_neg h2]
-          · rfl
-        have hv0 : valuesGet (genArgs bank account branch) .accountId = [] := rfl
-        have hv1 : valuesGet (genArgs bank account branch) .accountType = [] := rfl
-        have hv2 : valuesGet (genArgs bank account branch) .accountHolderId = [] := rfl
-        have hv3 : valuesGet (genArgs bank account branch) .currencyCode = [] := rfl
-        cases k with
-        | bankCode => exact hb1
-        | branchCode => exact hb2
-        | accountCode => exact hb3
-        | nationalChecksumDigits => exact absurd rfl hk
-        | accountId => rw [hsp _ (by decide) (by decide)]; simp [padComps, hv0, clean_nil, zfill_length]
-        | accountType => rw [hsp _ (by decide) (by decide)]; simp [padComps, hv1, clean_nil, zfill_length]
-        | accountHolderId => rw [hsp _ (by decide) (by decide)]; simp [padComps, hv2, clean_nil, zfill_length]
-        | currencyCode => rw [hsp _ (by decide) (by decide)]; simp [padComps, hv3, clean_nil, zfill_length]
-      have hpl := fromComponents_placement X hU hW (genArgs bank account branch) hcsC hfit hbeq hblen
-      refine ⟨e, b, hl, hb, hblen, ?_, ?_, ?_, ?_, hpl.1⟩
-      · rw [hi]; exact htake
-      · rw [hi]; exact hdrop
-      · rw [hi]; exact hiso
-      · rw [hi]; rw [← hi]; rw [hi] at h ⊢
-        unfold IBAN.new at h ⊢
-        simp only [Bool.false_eq_true, ↓reduceIte, hclean] at h ⊢
-        exact h
+    have hW := hT e (Table.lookup_mem hl).1
+    have hbc : Compact X.U b := by rw [hbeq]; exact compact_clean hU _
+    obtain ⟨hblen, htake, hdrop, hiso, hnew⟩ := fromBban_ok X hU hT hl hbc h
+    have hcsC := computeNational_compact X hU hA _ hcs
+    -- no component is longer than its field
+    have hfit : ∀ k r, publishedAt e k r → k ≠ .nationalChecksumDigits →
+        (splitComps X e (genArgs bank account branch) k).length ≤ r.stop - r.start := by
+      intro k r hp hk
+      have hr := range_of_published hp
+      have hwid : (e.range k).length = r.stop - r.start := by rw [hr]; rfl
+      rw [← hwid]
+      have hsp : ∀ k, k ≠ Component.bankCode → k ≠ Component.branchCode →
+          splitComps X e (genArgs bank account branch) k = padComps X e (genArgs bank account branch) k := by
+        intro k h1 h2
+        unfold splitComps
+        split
+        · show (if k = Component.bankCode then _ else if k = Component.branchCode then _ else _) = _
+          rw [if_neg h1, if_neg h2]
+        · rfl
+      have hv0 : valuesGet (genArgs bank account branch) .accountId = [] := rfl
+      have hv1 : valuesGet (genArgs bank account branch) .accountType = [] := rfl
+      have hv2 : valuesGet (genArgs bank account branch) .accountHolderId = [] := rfl
+      have hv3 : valuesGet (genArgs bank account branch) .currencyCode = [] := rfl
+      cases k with
+      | bankCode => exact hb1
+      | branchCode => exact hb2
+      | accountCode => exact hb3
+      | nationalChecksumDigits => exact absurd rfl hk
+      | accountId => rw [hsp _ (by decide) (by decide)]; simp [padComps, hv0, clean_nil, zfill_length]
+      | accountType => rw [hsp _ (by decide) (by decide)]; simp [padComps, hv1, clean_nil, zfill_length]
+      | accountHolderId => rw [hsp _ (by decide) (by decide)]; simp [padComps, hv2, clean_nil, zfill_length]
+      | currencyCode => rw [hsp _ (by decide) (by decide)]; simp [padComps, hv3, clean_nil, zfill_length]
+    have hpl := fromComponents_placement X hU hW (genArgs bank account branch) hcsC hfit hbeq hblen
+    exact ⟨e, b, hl, hb, hblen, htake, hdrop, hiso, hnew, hpl.1⟩
 
 /-! ### Instance: the live tables -/
 
